@@ -17,6 +17,13 @@ def cfgAnswers : Option Cfg → List (Nat × Nat)
   | none => []
   | some c => c.apps.flatMap appAnswers
 
+/-- who must be reachable on which SOCKET (a TCP address, or the unix socket file whatever
+    permission-bit spelling the configuration used for it: `sockId`) -/
+def cfgReach (r : Option Cfg) : List (Nat × Nat) := (cfgAnswers r).map fun p => (sockId p.1, p.2)
+
+/-- the permission bits a unix listen token asks for (listen() defaults to 0200) -/
+def tokenMode (t : Nat) : Nat := if t = 9 then 0o600 else if t = 10 then 0o660 else 0o200
+
 /-- the configuration an operation tries to install, given the one that is running -/
 def attempted (running : Option Cfg) : Op → Option Cfg
   | .load c _ => some c
